@@ -103,3 +103,67 @@ func init() {
 		c09Paths(c)
 	}
 }
+
+// (q) an auxiliary record that REPEATS k-1 fields of the SYSCALL record verbatim (same keys, same values - what a kernel
+// does for pid / uid / comm in AVC, OBJ_PID, ANOM records) and carries ONE field of its own, for every k = 2 .. 27 and
+// three record types: whatever the amounts of fields on the two sides are, and however many of them agree, the one new
+// field is in the event.  Sixteen repetitions (coalesce() under the C15 oracle repeats, too): decisions taken on the
+// first key a map iteration yields differ from call to call.
+func c09EqualCounts(c *enumx.Ctx) {
+	for k := 2; k <= 27; k++ {
+		for _, auxType := range []string{"MQ_NOTIFY", "OBJ_PID", "UNKNOWN[1399]"} {
+			for _, start := range []int{0, 5} {
+				if !c.Mine() {
+					continue
+				}
+				t := &tagger{numeric: true}
+				sc := syscallRec(t, 2, "")
+				sc.Body = strings.Replace(sc.Body, "items=2", "items=0", 1)
+				var shared []string
+				for _, kv := range strings.Fields(sc.Body) {
+					if strings.HasPrefix(kv, "arch=") || strings.HasPrefix(kv, "syscall=") || strings.HasPrefix(kv, "items=") {
+						continue
+					}
+					shared = append(shared, kv)
+				}
+				if start+k-1 > len(shared) {
+					continue
+				}
+				own := "xq=" + t.v()
+				aux := recDesc{auxType, strings.Join(append(append([]string{}, shared[start:start+k-1]...), own), " ")}
+				recs := []recDesc{sc, aux}
+				desc := fmt.Sprintf("SYSCALL + %s record repeating %d of its fields verbatim (from field %d) plus one field of its own", auxType, k-1, start)
+				c.Begin(func() string { return desc })
+				c.Try(tryProp(), func() {
+					for rep := 0; rep < 16; rep++ {
+						msgs, ok := parseAll(c, recs)
+						if !ok {
+							return
+						}
+						ev, err := coalesce(c, msgs)
+						if oracleC15 {
+							return
+						}
+						if err != nil || ev == nil {
+							c.Report("C09 coalesce-error", fmt.Sprintf("%s: (%v, %v)", desc, ev, err), nil)
+							return
+						}
+						if !identity(c, "C09", msgs[0], ev, desc) || !containment(c, "C09", recs, ev, desc) {
+							return
+						}
+					}
+					c.Nontrivial()
+				})
+			}
+		}
+	}
+	c.Sample("SYSCALL + OBJ_PID{pid=<same> uid=<same> ... xq=<new>}: xq is in the event whatever the field counts are")
+}
+
+func init() {
+	gens["c09-equalcounts"] = c09EqualCounts
+	gens["c15:c09-equalcounts"] = func(c *enumx.Ctx) {
+		oracleC15 = true
+		c09EqualCounts(c)
+	}
+}
